@@ -76,7 +76,9 @@ func (fr *Frame) exec(in ssa.Instruction, st *State, g string) {
 			} else if sc := x.Common().StaticCallee(); sc != nil {
 				ck = funcKey(sc)
 			}
+			fr.hintCallRes = res // `hint after <callee>` may name the call's results: callresult / callresult0, callresult1 ...
 			fr.applyHints("after", ck, x.Block(), st, g, nil)
+			fr.hintCallRes = nil
 		}
 		if x.Type() != nil {
 			if tup, ok := x.Type().(*types.Tuple); ok {
@@ -550,12 +552,14 @@ func (fr *Frame) convert(x *ssa.Convert, st *State, g string) {
 		fc.assume("true", eq(app("str_of_bytes", blk, "0", n), v.t))
 		fc.emit(fmt.Sprintf("(assert (forall ((i Int)) (! (=> (and (<= 0 i) (< i %s)) (= (select %s i) (strat %s i))) :pattern ((select %s i)))))", n, blk, v.t, blk))
 		fr.setVal(x, "Slice", mkSlice(pt, "0", n, n))
+		fc.kvstrFact(v.t, blk, "0", n) // ext_kvstr.go
 	case tok && tb.Info()&types.IsString != 0:
 		if _, isSl := from.(*types.Slice); isSl {
 			k, s := fc.bKey(types.Typ[types.Uint8])
 			blk := app("select", fc.comp(st, k, s), sarr(v.t))
 			fr.setVal(x, "Str", app("str_of_bytes", blk, soff(v.t), slen(v.t)))
 			fc.assume("true", eq(app("strlen", fr.vals[x].t), slen(v.t)))
+			fc.kvstrFact(fr.vals[x].t, blk, soff(v.t), slen(v.t)) // ext_kvstr.go
 			return
 		}
 		fc.unsupported("conversion to string from " + x.X.Type().String())
@@ -734,6 +738,10 @@ func (fr *Frame) typeAssert(x *ssa.TypeAssert, st *State, g string) {
 func (fr *Frame) panicInstr(x *ssa.Panic, st *State, g string) {
 	fc := fr.fc
 	if fr.top && fr.spec != nil {
+		if fr.noPanicOld != "" { // ext_nopanic.go: under the stated condition this panic must be unreachable
+			fc.oblige(fr, "nopanic", "panic", g, not(fr.noPanicOld), x.Pos(), "explicit panic unreachable under the `nopanic when` condition", fr.props())
+			return
+		}
 		if fr.spec.MayPanic {
 			return
 		}
@@ -807,6 +815,12 @@ func (fr *Frame) applyHints(where, calleeKey string, b *ssa.BasicBlock, st *Stat
 		env := fr.specEnv(st, fr.entry)
 		if res != nil {
 			fr.bindResults(env, res)
+		}
+		for ri, r := range fr.hintCallRes {
+			env.vars[fmt.Sprintf("callresult%d", ri)] = r
+			if len(fr.hintCallRes) == 1 {
+				env.vars["callresult"] = r
+			}
 		}
 		t, err := env.evalBool(h.Clause.E)
 		fr.curLocals, fr.curLocalAddrs = nil, nil
